@@ -11,6 +11,7 @@ wrap; instrumented modules carry the inserted 'import jaxtyping'; ill-typed call
 spy wrapped the function."""
 from __future__ import annotations
 
+import gc
 import importlib
 import os
 import shutil
@@ -43,15 +44,15 @@ ASSUMPTIONS = [
 ]
 
 FOREST = {
-    "foo/__init__.py": "from . import bar\nMOD = __name__\ndef f(x: int):\n    return x\n",
-    "foo/bar/__init__.py": "MOD = __name__\ndef f(x: int):\n    return x\nclass K:\n    def m(self, x: int):\n        return x\n",
-    "foo/bar/qux.py": "import foobar\nMOD = __name__\ndef f(x: int):\n    return x\n",
-    "foo/barbaz.py": "MOD = __name__\ndef f(x: int):\n    return x\ndef lazy():\n    import fo\n    return fo\n",
-    "foobar.py": "MOD = __name__\ndef f(x: int):\n    return x\n",
-    "foo_bar.py": "import foo.bar\nMOD = __name__\ndef f(x: int):\n    return x\n",
-    "fo.py": "MOD = __name__\ndef f(x: int):\n    return x\n",
-    "foobar2/__init__.py": "MOD = __name__\ndef f(x: int):\n    return x\n",
-    "foobar2/foo.py": "MOD = __name__\ndef f(x: int):\n    return x\n",
+    "foo/__init__.py": "from . import bar\nMOD = __name__\ndef f(x: int):\n    return x\ndef outer(x):\n    def inner(y: int):\n        return y\n    return inner(x)\n",
+    "foo/bar/__init__.py": "MOD = __name__\ndef f(x: int):\n    return x\nclass K:\n    def m(self, x: int):\n        return x\ndef outer(x):\n    def inner(y: int):\n        return y\n    return inner(x)\n",
+    "foo/bar/qux.py": "import foobar\nMOD = __name__\ndef f(x: int):\n    return x\ndef outer(x):\n    def inner(y: int):\n        return y\n    return inner(x)\n",
+    "foo/barbaz.py": "MOD = __name__\ndef f(x: int):\n    return x\ndef lazy():\n    import fo\n    return fo\ndef outer(x):\n    def inner(y: int):\n        return y\n    return inner(x)\n",
+    "foobar.py": "MOD = __name__\ndef f(x: int):\n    return x\ndef outer(x):\n    def inner(y: int):\n        return y\n    return inner(x)\n",
+    "foo_bar.py": "import foo.bar\nMOD = __name__\ndef f(x: int):\n    return x\ndef outer(x):\n    def inner(y: int):\n        return y\n    return inner(x)\n",
+    "fo.py": "MOD = __name__\ndef f(x: int):\n    return x\ndef outer(x):\n    def inner(y: int):\n        return y\n    return inner(x)\n",
+    "foobar2/__init__.py": "MOD = __name__\ndef f(x: int):\n    return x\ndef outer(x):\n    def inner(y: int):\n        return y\n    return inner(x)\n",
+    "foobar2/foo.py": "MOD = __name__\ndef f(x: int):\n    return x\ndef outer(x):\n    def inner(y: int):\n        return y\n    return inner(x)\n",
 }
 MODULES = ["foo", "foo.bar", "foo.bar.qux", "foo.barbaz", "foobar", "foo_bar", "fo", "foobar2", "foobar2.foo"]
 # static module-level imports (beyond parents)
@@ -161,6 +162,18 @@ def observe():
             raises = False
         except jaxtyping.TypeCheckError:
             raises = True
+        # a nested def is decorated each time its enclosing function runs, i.e. long after the import
+        try:
+            mod.outer("not-an-int")
+            nested_raises = False
+        except jaxtyping.TypeCheckError:
+            nested_raises = True
+        except Exception as e:  # noqa: BLE001
+            out[name] = f"inconsistent(calling a function with a nested def raised {type(e).__name__}: {e})"
+            continue
+        if nested_raises != raises:
+            out[name] = f"inconsistent(top-level function checked={raises}, nested function checked={nested_raises})"
+            continue
         if not has_import and not is_wrapped and not tags and not raises:
             out[name] = None
         elif has_import and is_wrapped and len(tags) == 1 and raises and ("f" in {q for _, q in wrapped}):
@@ -230,14 +243,23 @@ def check_history(ctx, ops):
                         mgr.uninstall()  # idempotent
                 model.hooks[hid]["active"] = False
                 model.uninstalled_once = True
+                # the program drops its handle; whatever the hook owned may be collected now
+                del managers[hid], mgr
+                gc.collect(1)
             elif kind == "import":
-                importlib.import_module(op[1])
+                try:
+                    importlib.import_module(op[1])
+                except Exception as e:  # noqa: BLE001
+                    raise Violation("operation-raised", {"ops": ops}, f"op #{i} import {op[1]} raised {type(e).__name__}: {e}; hooks={model.hooks}; history={ops[:i + 1]}")
                 model.do_import(op[1])
             elif kind == "lazy":
-                if "foo.barbaz" not in sys.modules:
-                    importlib.import_module("foo.barbaz")
-                    model.do_import("foo.barbaz")
-                sys.modules["foo.barbaz"].lazy()
+                try:
+                    if "foo.barbaz" not in sys.modules:
+                        importlib.import_module("foo.barbaz")
+                        model.do_import("foo.barbaz")
+                    sys.modules["foo.barbaz"].lazy()
+                except Exception as e:  # noqa: BLE001
+                    raise Violation("operation-raised", {"ops": ops}, f"op #{i} (call a function of foo.barbaz that imports 'fo' lazily) raised {type(e).__name__}: {e}; hooks={model.hooks}; history={ops[:i + 1]}")
                 model.do_import("fo")
             elif kind == "pytest":
                 from jaxtyping import _pytest_plugin
